@@ -534,25 +534,30 @@ def r5a_lhs_variable(R) -> None:
     f = Fn(R, q)
     good = []
     unknown = []
+    from rules.parser_roles import returned_sides
+    _ret, parts = returned_sides(f)
+    side_names = tuple(p_.id for p_ in parts if isinstance(p_, ast.Name))
+    lhs = side_names[0] if side_names and isinstance(parts[0], ast.Name) else 'lhs_terms'
     for r in f.raises('ParserError'):
         for (tid, lab) in f.guards_of(r.id):
             tn = f.cfg.nodes[tid]
             if tn.kind != 'test' or lab != 'T':
                 continue
-            tt = text(tn.ast)
-            if 'lhs_terms' not in tt:
+            tn_ast = f.expand(tn.id, tn.ast, stop=side_names)
+            tt = text(tn_ast)
+            if lhs not in tt:
                 continue
             mentions_type = any(k in tt for k in ('Type.ENDOGENOUS', 'Type.VARIABLE'))
             if not mentions_type:
                 continue
             # the element predicate must select variables only
-            types_named = sorted(set(x.attr for x in ast.walk(tn.ast) if isinstance(x, ast.Attribute) and isinstance(x.value, ast.Name) and x.value.id == 'Type'))
+            types_named = sorted(set(x.attr for x in ast.walk(tn_ast) if isinstance(x, ast.Attribute) and isinstance(x.value, ast.Name) and x.value.id == 'Type'))
             if not set(types_named) <= {'ENDOGENOUS', 'VARIABLE'}:
                 R.violation(q, f'lhs-variable-predicate:{types_named}',
                             f'the left-hand-side check `{tt[:80]}` also accepts {[t for t in types_named if t not in ("ENDOGENOUS", "VARIABLE")]} terms: a statement whose '
                             f'left-hand side holds no variable (e.g. only backticked code) passes and is then dropped silently', where=f.where(tn))
                 return
-            node = tn.ast
+            node = tn_ast
             neg_any = isinstance(node, ast.UnaryOp) and isinstance(node.op, ast.Not) and is_call(node.operand, 'any')
             neg_list = isinstance(node, ast.UnaryOp) and isinstance(node.op, ast.Not) and isinstance(node.operand, (ast.ListComp, ast.Name))
             c = cmp_of(node)
@@ -565,7 +570,7 @@ def r5a_lhs_variable(R) -> None:
         R.ok(q, 'a statement whose left-hand side yields no variable raises ParserError', detail=text(good[0][1].ast)[:90])
         return
     if unknown:
-        raise Unknown(f'{q}: emptiness test `{text(unknown[0].ast)[:60]}` not in the idiom table')
+        raise Unknown(f'{q}: emptiness test `{text(f.expand(unknown[0].id, unknown[0].ast, stop=side_names))[:60]}` not in the idiom table')
     # alternative: the grammar only admits an identifier on the left
     R.violation(q, 'no-lhs-variable-check',
                 "no rejection when the left-hand side yields no variable ('[] = X', '{a} = X', '`self.Y[t]` = X' pass equation_re): "
